@@ -741,6 +741,45 @@ def run(tier, only=None, library=False):
                                       {"F": "the folder", "I": "the interpreter", "CE": "generated C", "CS": "the C statement macro"}[src],
                                       show(pt_), short))
 
+        # B11: the folder builds a FOAM literal node, whose data word is an AInt: unlike the interpreter's `(FiChar) x` or the C
+        # type of the generated expression, nothing narrows the value to the result class.  Where the result class is narrower
+        # than the value folded into it, the folder must narrow explicitly.
+        rc_ = bvals.FOAM_TC.get(row["retType"], "ptr")
+        if "F" in raw and rc_ in ("char", "u8", "i16") and not has_opaque(raw["F"]) and short not in no_value:
+            width = {"char": 8, "u8": 8, "i16": 16}[rc_]
+            acl = arg_classes(row)
+
+            def vbits(t):
+                if not isinstance(t, tuple):
+                    return 64
+                h = t[0]
+                if h == "arg":
+                    return {"char": 8, "u8": 8, "i16": 16, "bool": 1}.get(acl[t[1]] if t[1] < len(acl) else "i64", 64)
+                if h in ("int", "chr"):
+                    return max(1, abs(int(t[1])).bit_length()) if isinstance(t[1], int) and t[1] >= 0 else 64
+                if h == "cast":
+                    return min({"char": 8, "u8": 8, "i16": 16, "bool": 1, "Char": 8, "Byte": 8, "HInt": 16, "Bool": 1}.get(t[1], 64), vbits(t[2]))
+                if h == "call" and t[1] in ("tolower", "toupper") and len(t) == 3:
+                    return vbits(t[2])
+                if h == "idx" and isinstance(t[1], tuple) and t[1][0] == "sym" and t[1][1] in ("__lowercase", "__uppercase"):
+                    return 8                       # the repository's own character tables (ctype.h0)
+                if h == "bin" and t[1] in ("==", "!=", "<", "<=", ">", ">=", "&&", "||"):
+                    return 1
+                if h == "bin" and t[1] == "&":
+                    return min(vbits(t[2]), vbits(t[3]))
+                if h == "cond":
+                    return max(vbits(t[2]), vbits(t[3]))
+                return 64
+            b = vbits(raw["F"])
+            if b <= width:
+                rep.ok("B11", "folder-narrows:%s" % short, nontrivial=False)
+            else:
+                rep.violation("B11", "folder-narrows:%s" % short, where["F"],
+                              "the folder stores %s, a value of up to %d bits, into a %s literal without narrowing it to the %d bits "
+                              "of the result type (a FOAM literal's data word is a full machine integer): %s of a constant outside "
+                              "the range folds to a value that the interpreter and the generated C, which convert through the C "
+                              "type, never produce" % (show(raw["F"]), b, row["retType"][5:], width, short))
+
         # canonical forms
         for src, t in raw.items():
             forms[src] = canon(t, row, used)
